@@ -86,10 +86,12 @@ def code_lines(path):
     return out
 
 
-def gen(per_file, seed):
+def gen(per_file, seed, only=None):
     rnd = random.Random(seed)
     muts = []
     for rel in sorted(FILES):
+        if only and not re.search(only, rel):
+            continue
         path = f'/repo/{rel}'
         if not os.path.exists(path):
             continue
@@ -248,7 +250,8 @@ if __name__ == '__main__':
     if a[0] == 'gen':
         per = int(a[a.index('--per-file') + 1]) if '--per-file' in a else 12
         seed = int(a[a.index('--seed') + 1]) if '--seed' in a else 1
-        gen(per, seed)
+        only = a[a.index('--files') + 1] if '--files' in a else None
+        gen(per, seed, only)
     elif a[0] == 'work':
         jobs = int(a[a.index('--jobs') + 1]) if '--jobs' in a else 4
         work(int(a[1]), int(a[2]), jobs)
